@@ -1,7 +1,7 @@
 """C10 - display_width is the sum of character widths outside ANSI sequences."""
 from ..sym import sym_of
 from ..engine import AnchorMissing, loop_models
-from ..poly import poly, fact_nf
+from ..poly import poly, fact_nf, GT0, GE0, EQ0, NE0
 from ..paths import loop_system, PathView, fn_paths, contradictory, loop_state_vars, entry_value
 from ..describe import describe
 from ..engines.schemas import resolve_iter, char_item
@@ -233,7 +233,7 @@ def _skipper(prog, rep):
             r3.check(init is not None and init[0] == "char" and init[1] != ESC, "osc-last-init",
                      "the previous-char tracker starts with a non-ESC char", D(init) if init else "?",
                      "the OSC previous-char tracker starts as %s" % (D(init) if init else "?"))
-            bel = ("eq0", fact_nf((("cmp", "Eq", ("char", BEL), item), True))[1])
+            bel = EQ0(fact_nf((("cmp", "Eq", ("char", BEL), item), True))[1])
             for tr in trans:
                 nfs = set()
                 for a, pol in tr.facts:
